@@ -4,7 +4,9 @@
                kvdb.Store: an overlay tree over the always-empty, write-ignoring devnull store)
      wrappers: Flu (flushable.Flushable: overlay tree over a parent),
                Tab (table.Table: a translation of every operation onto the parent),
-               Syn (synced.store: identity on values; its locks are C28's business)
+               Syn (synced.store: identity on values; its locks are C28's business),
+               Lzy (flushable.LazyFlushable: a Flushable over devnull until the first Flush installs
+               the produced store [u]; init = the producer has run)
    Every operation of kvdb.Store is a structural recursion over the stack, mirroring the
    delegation in the Go code.  An operation is addressed to a *handle*: a depth in the stack
    plus a path of extra stateless table wrappers created on the fly (table.New(x, p),
@@ -20,7 +22,8 @@ Inductive st :=
 | Mem (o : tree)
 | Flu (o : tree) (u : st)
 | Tab (p : key) (u : st)
-| Syn (u : st).
+| Syn (u : st)
+| Lzy (o : tree) (init : bool) (u : st).
 
 (* ---- reads ---- *)
 Fixpoint st_get (s : st) (k : key) : option val :=
@@ -30,6 +33,7 @@ Fixpoint st_get (s : st) (k : key) : option val :=
   | Flu o u => flu_get o (st_get u) k
   | Tab p u => st_get u (prefixed k p)
   | Syn u => st_get u k
+  | Lzy o i u => flu_get o (if i then st_get u else fun _ => None) k
   end.
 
 Fixpoint st_has (s : st) (k : key) : bool :=
@@ -39,6 +43,7 @@ Fixpoint st_has (s : st) (k : key) : bool :=
   | Flu o u => flu_has o (st_has u) k
   | Tab p u => st_has u (prefixed k p)
   | Syn u => st_has u k
+  | Lzy o i u => flu_has o (if i then st_has u else fun _ => false) k
   end.
 
 (* NewIterator(prefix, start), fully drained *)
@@ -51,6 +56,7 @@ Fixpoint st_iter (s : st) (prefix start : okey) : list (key * val) :=
       map (fun kv => (no_prefix (fst kv) p, snd kv))
           (st_iter u (Some (prefixed (ob prefix) p)) start)
   | Syn u => st_iter u prefix start
+  | Lzy o i u => flu_iterate o (if i then st_iter u prefix start else []) prefix start
   end.
 
 (* ---- direct writes ---- *)
@@ -61,6 +67,7 @@ Fixpoint st_put (s : st) (k : key) (v : val) : st :=
   | Flu o u => Flu (flu_put o k v) u
   | Tab p u => Tab p (st_put u (prefixed k p) v)
   | Syn u => Syn (st_put u k v)
+  | Lzy o i u => Lzy (flu_put o k v) i u
   end.
 
 Fixpoint st_del (s : st) (k : key) : st :=
@@ -70,6 +77,7 @@ Fixpoint st_del (s : st) (k : key) : st :=
   | Flu o u => Flu (flu_del o k) u
   | Tab p u => Tab p (st_del u (prefixed k p))
   | Syn u => Syn (st_del u k)
+  | Lzy o i u => Lzy (flu_del o k) i u
   end.
 
 (* ---- batches ----
@@ -96,6 +104,7 @@ Fixpoint st_bwrite (s : st) (stored : list wop) : st :=
   | Flu o u => Flu (flu_write o stored) u
   | Tab p u => Tab p (st_bwrite u stored)
   | Syn u => Syn (st_bwrite u stored)
+  | Lzy o i u => Lzy (flu_write o stored) i u
   end.
 
 (* batch.Replay(w): what w receives for a stored key *)
@@ -118,6 +127,7 @@ Fixpoint st_bsize (s : st) (o : wop) : N :=
   | Flu _ _ => match o with WPut k v => blen k + blen v | WDel k => blen k end
   | Tab _ u => st_bsize u o
   | Syn u => st_bsize u o
+  | Lzy _ _ _ => match o with WPut k v => blen k + blen v | WDel k => blen k end
   end.
 
 (* ---- flushable-only operations ---- *)
@@ -125,20 +135,27 @@ Definition st_flush_into (ideal : N) (u : st) (o : tree) : st :=
   let stored := fold_left (st_badd u) (flu_ops o) [] in
   fold_left st_bwrite (flush_chunks (st_bsize u) ideal stored [] 0) u.
 
+(* LazyFlushable.Flush: initUnderlyingDb (the producer runs once), then flush *)
 Definition st_flush (ideal : N) (s : st) : st :=
-  match s with Flu o u => Flu [] (st_flush_into ideal u o) | _ => s end.
+  match s with
+  | Flu o u => Flu [] (st_flush_into ideal u o)
+  | Lzy o _ u => Lzy [] true (st_flush_into ideal u o)
+  | _ => s
+  end.
 Definition st_drop (s : st) : st :=
-  match s with Flu o u => Flu [] u | _ => s end.
+  match s with Flu o u => Flu [] u | Lzy o i u => Lzy [] i u | _ => s end.
 Definition st_nfp (s : st) : option nat :=
-  match s with Flu o _ => Some (flu_size o) | _ => None end.
+  match s with Flu o _ => Some (flu_size o) | Lzy o _ _ => Some (flu_size o) | _ => None end.
 
-(* Compact(start, limit): the range that reaches the base *)
-Fixpoint st_compact (s : st) (start limit : okey) : okey * okey :=
+(* Compact(start, limit): the range that reaches the base; None = it never gets there
+   (a LazyFlushable whose store is not produced yet compacts devnull) *)
+Fixpoint st_compact (s : st) (start limit : okey) : option (okey * okey) :=
   match s with
   | Tab p u => let r := table_compact p start limit in st_compact u (fst r) (snd r)
   | Flu _ u => st_compact u start limit
   | Syn u => st_compact u start limit
-  | _ => (start, limit)
+  | Lzy _ i u => if i then st_compact u start limit else None
+  | _ => Some (start, limit)
   end.
 
 (* ---- addressing ---- *)
@@ -149,6 +166,7 @@ Fixpoint st_sub (d : nat) (s : st) : st :=
             | Flu _ u => st_sub d' u
             | Tab _ u => st_sub d' u
             | Syn u => st_sub d' u
+            | Lzy _ _ u => st_sub d' u
             | _ => s
             end
   end.
@@ -160,6 +178,7 @@ Fixpoint st_upd (d : nat) (f : st -> st) (s : st) : st :=
             | Flu o u => Flu o (st_upd d' f u)
             | Tab p u => Tab p (st_upd d' f u)
             | Syn u => Syn (st_upd d' f u)
+            | Lzy o i u => Lzy o i (st_upd d' f u)
             | _ => f s
             end
   end.
@@ -208,7 +227,7 @@ Definition run_op (ideal : N) (r : rstate) (o : op) : rstate * list obs :=
   | OSGet i k => (r, [match nth_error (r_snaps r) i with Some x => BGet (st_get x k) | None => BNone end])
   | OSHas i k => (r, [match nth_error (r_snaps r) i with Some x => BHas (st_has x k) | None => BNone end])
   | OSIter i p s0 => (r, [match nth_error (r_snaps r) i with Some x => BIter (st_iter x p s0) | None => BNone end])
-  | OCompact h a l => (r, [let c := st_compact (h_view h s) a l in BCompact (fst c) (snd c)])
+  | OCompact h a l => (r, [BCompact (st_compact (h_view h s) a l)])
   end.
 
 Fixpoint run_ops (ideal : N) (r : rstate) (ops : list op) : list obs :=
